@@ -396,6 +396,11 @@ func cmdRun(args []string) {
 	fmt.Printf("verifcheck: property=%s tier=%s VERIF_SEED=%d\n", *prop, *tier, seed)
 	bin, memo := build(*prop, false)
 	defer os.Remove(bin)
+	if old, _ := filepath.Glob(filepath.Join(verifDir, "replays", *prop+"-*.json")); len(old) > 0 {
+		for _, f := range old {
+			os.Remove(f)
+		}
+	}
 	tc := tierOf(*prop, *tier)
 	buildS := time.Since(start).Seconds()
 
@@ -566,7 +571,7 @@ func cmdRun(args []string) {
 		os.MkdirAll(filepath.Dir(path), 0o755)
 		os.WriteFile(path, b, 0o644)
 		violations = append(violations, fmt.Sprintf("VIOLATION property=%s replay=%s", l.Prop, path))
-		fmt.Printf("  %s (%d runs, first run %d)\n", best.Violation, len(ls), l.Run)
+		fmt.Printf("  %.300s (%d runs, first run %d)\n", best.Violation, len(ls), l.Run)
 		newViol++
 	}
 
